@@ -152,7 +152,7 @@ theorem toks_modPA (m : WModPA) (hd : ∀ p ∈ m.base.ports, p.dir ≠ .undef) 
 
 def anyPiecesA : WAnyPA → List Piece
   | .work m => modPA m
-  | .leaf lf => leafP lf
+  | .leaf lf => leafPU lf
 
 def filePA (n : Text.WNet) (m : WModPA) : List Piece :=
   [.self "//Generated from netlist by SpyDrNet\n" "//Generated from netlist by SpyDrNet",
@@ -175,28 +175,48 @@ theorem chars_filePHA (n : Text.WNet) (m : WModPA) (Ps : List WAnyPA) :
     intro P _
     cases P with
     | work m' => exact chars_modPA m'
-    | leaf lf => exact chars_leafP lf
+    | leaf lf => exact chars_leafPU lf
   rw [this]
   simp [String.toList_append, toList_join, List.flatMap, Function.comp_def, List.append_assoc]
 
 def anyDirOKA : WAnyPA → Prop
   | .work m => ∀ p ∈ m.base.ports, p.dir ≠ .undef
-  | .leaf lf => ∀ p ∈ lf.ports, p.dir ≠ .undef ∧ p.attrs = []
+  | .leaf lf => ∀ p ∈ lf.ports, p.attrs = []
 
+theorem filter_clean (ts : List String) (h : cleanToks ts = true) : ts.filter notC = ts := by
+  apply List.filter_eq_self.mpr
+  intro t ht
+  simp only [cleanToks, List.all_eq_true, Bool.and_eq_true] at h
+  exact (h t ht).1
+
+/-- the tokens the lexer returns for the whole file, comments removed (the two header lines and the
+    `/* undefined port direction */` comments of the leaves), are the tokens of the syntax trees -/
 theorem toks_filePHA (n : Text.WNet) (m : WModPA) (Ps : List WAnyPA) (hd : ∀ p ∈ m.base.ports, p.dir ≠ .undef)
-    (hl : ∀ P ∈ Ps, anyDirOKA P) :
-    (filePHA n m Ps).flatMap Piece.toks =
-      ["//Generated from netlist by SpyDrNet", "//netlist name: " ++ fixName n.name] ++ fileToksA m.toA (Ps.map WAnyPA.toAny) := by
+    (hl : ∀ P ∈ Ps, anyDirOKA P) (hc2 : Text.isCommentTok ("//netlist name: " ++ fixName n.name) = true)
+    (hm : tokOKA m.toA = true) (hok : ∀ P ∈ Ps, anyOKA P.toAny = true) :
+    ((filePHA n m Ps).flatMap Piece.toks).filter notC = fileToksA m.toA (Ps.map WAnyPA.toAny) := by
   have h1 := toks_modPA m hd
-  have h2 : ptoks ((Ps.map anyPiecesA).flatten) = (Ps.map WAnyPA.toAny).flatMap anyToksA := by
-    have hmap : Ps.map (ptoks ∘ anyPiecesA) = Ps.map (anyToksA ∘ WAnyPA.toAny) := by
-      apply List.map_congr_left
-      intro P hP
-      simp only [Function.comp]
+  have hc1 : Text.isCommentTok "//Generated from netlist by SpyDrNet" = true := by decide +kernel
+  have h2 : (ptoks ((Ps.map anyPiecesA).flatten)).filter notC = (Ps.map WAnyPA.toAny).flatMap anyToksA := by
+    rw [ptoks_flatten, List.map_map, List.flatMap_def, List.map_map]
+    induction Ps with
+    | nil => rfl
+    | cons P Ps ih =>
+      simp only [List.map_cons, List.flatten_cons, List.filter_append]
+      rw [ih (fun x hx => hl x (List.mem_cons_of_mem _ hx)) (fun x hx => hok x (List.mem_cons_of_mem _ hx))]
+      congr 1
+      have hPo := hok P List.mem_cons_self
+      have hPd := hl P List.mem_cons_self
       cases P with
-      | work m' => exact toks_modPA m' (hl _ hP)
-      | leaf lf => exact toks_leafP lf (hl _ hP)
-    rw [ptoks_flatten, List.map_map, hmap, List.flatMap_def, List.map_map]
+      | work m' =>
+        simp only [Function.comp, anyPiecesA, WAnyPA.toAny, anyToksA]
+        rw [toks_modPA m' hPd]
+        simp only [WAnyPA.toAny, anyOKA, tokOKA, Bool.and_eq_true] at hPo
+        exact filter_clean _ hPo.2
+      | leaf lf =>
+        simp only [Function.comp, anyPiecesA, WAnyPA.toAny, anyToksA]
+        rw [toks_leafPU lf hPd]
+        exact leafToksU_filter lf hPo
   have h3 : (filePHA n m Ps).flatMap Piece.toks = ptoks (filePA n m) ++ ptoks ((Ps.map anyPiecesA).flatten) :=
     ptoks_append _ _
   have h4 : ptoks (filePA n m) =
@@ -204,7 +224,28 @@ theorem toks_filePHA (n : Text.WNet) (m : WModPA) (Ps : List WAnyPA) (hd : ∀ p
     unfold filePA
     rw [ptoks_append, h1]
     rfl
-  rw [h3, h2, h4]
+  rw [h3, h4, List.filter_append, List.filter_append, h2]
+  have hclean : (tokensOfA m.toA).filter notC = tokensOfA m.toA := by
+    simp only [tokOKA, Bool.and_eq_true] at hm
+    exact filter_clean _ hm.2
+  rw [hclean]
   unfold fileToksA
-  simp
+  simp [List.filter_cons, notC, hc1, hc2]
+
+/-- the REAL `parseV` on a token list with comments anywhere: they are dropped by the preprocessor -/
+theorem parseV_dropC (L : List String) (m : WModA) (Ms : List WAnyA) (hf : L.filter notC = fileToksA m Ms)
+    (h : tokOKA m = true) (hl : ∀ M ∈ Ms, anyOKA M = true) :
+    Parse.parseV L = .ok (m.toModule :: Ms.map WAnyA.toModule) := by
+  have hkeep : (fileToksA m Ms).all keepTok = true := by
+    have hft : fileToksA m Ms = (WAnyA.work m :: Ms).flatMap anyToksA := by simp [fileToksA, anyToksA]
+    rw [hft, List.all_flatMap, List.all_eq_true]
+    intro M hM
+    rcases List.mem_cons.mp hM with e | e
+    · rw [e]; exact anyToksA_keep _ h
+    · exact anyToksA_keep M (hl M e)
+  have hp := parse_hierA [] m Ms (by intro c hc; cases hc) h hl
+  unfold Parse.parseV at hp ⊢
+  rw [List.nil_append, preprocess_keep _ _ (Nat.le_refl _) hkeep] at hp
+  rw [preprocess_filter L _ (Nat.le_refl _) (by rw [hf]; exact hkeep), hf]
+  exact hp
 end Spydr.Verilog.Elab
